@@ -141,7 +141,9 @@ EXPRF = "a816/parse/ast/expression.py"
 M("C06", "swap-and-or-precedence", EXPRF, '    "&": 8,\n    "^": 9,\n    "|": 10,', '    "&": 10,\n    "^": 9,\n    "|": 8,', "C06.R1")
 M("C06", "shift-tighter-than-add", EXPRF, '    "<<": 5,\n    ">>": 5,', '    "<<": 3,\n    ">>": 3,', "C06.R1")
 M("C06", "minus-looser-than-plus", EXPRF, '    "+": 4,\n    "-": 4,', '    "+": 4,\n    "-": 5,', "C06.R1")
-M("C06", "right-associative", EXPRF, "OPERATOR_PRECEDENCE[operator_stack[-1].token.value] <= current_precedence", "OPERATOR_PRECEDENCE[operator_stack[-1].token.value] < current_precedence", "C06.R2")
+M("C06", "right-associative", EXPRF, "operator_precedence(operator_stack[-1]) <= current_precedence", "operator_precedence(operator_stack[-1]) < current_precedence", "C06.R2")
+M("C06", "revert-unary-rank-on-stack", EXPRF, "                and operator_precedence(operator_stack[-1]) <= current_precedence", "                and OPERATOR_PRECEDENCE[operator_stack[-1].token.value] <= current_precedence", "C06.R")
+M("C06", "unary-looser-than-mult", EXPRF, "    if isinstance(expr, UnaryOp):\n        return 2\n", "    if isinstance(expr, UnaryOp):\n        return 4\n", "C06.R1")
 M("C06", "revert-prefix-never-pops", EXPRF, "                isinstance(expr, BinOp)\n                and len(operator_stack) > 0", "                len(operator_stack) > 0", "C06.R2")
 M("C06", "sub-operands-swapped", EXPRF, "r = v1 - v2", "r = v2 - v1", "C06.R3")
 M("C06", "shr-is-shl", EXPRF, "r = v1 >> v2", "r = v1 << v2", "C06.R3")
@@ -202,7 +204,11 @@ M("C09", "code-lookup-root-scope", CG, "    value = resolver.current_scope.value
 M("C10", "for-inclusive", CG, "for k in range(from_val, to_val):", "for k in range(from_val, to_val + 1):", "C10.R2")
 M("C10", "for-bounds-swapped", CG, "    from_val = eval_expression(node.min_value, resolver)\n    to_val = eval_expression(node.max_value, resolver)", "    from_val = eval_expression(node.max_value, resolver)\n    to_val = eval_expression(node.min_value, resolver)", "C10.R2")
 M("C10", "for-reversed", CG, "for k in range(from_val, to_val):", "for k in reversed(range(from_val, to_val)):", "C10.R2")
-M("C10", "for-binds-k-plus-1", CG, "ExpressionAstNode([Term(Token(TokenType.NUMBER, str(k)))])", "ExpressionAstNode([Term(Token(TokenType.NUMBER, str(k + 1)))])", "C10.R2")
+M("C10", "for-binds-k-plus-1", CG, "resolver.current_scope.add_symbol(node.symbol, k)", "resolver.current_scope.add_symbol(node.symbol, k + 1)", "C10.R2")
+M("C10", "revert-for-binding-deferred", CG, "        resolver.current_scope.add_symbol(node.symbol, k)\n        code.append(ScopeNode(resolver))\n", "        code.append(ScopeNode(resolver))\n        code.append(SymbolNode(node.symbol, ExpressionAstNode([Term(Token(TokenType.NUMBER, str(k)))]), resolver))\n", "C10.R2",
+  edits=[(CG, "        resolver.current_scope.add_symbol(node.symbol, k)\n        code.append(ScopeNode(resolver))\n", "        code.append(ScopeNode(resolver))\n        code.append(SymbolNode(node.symbol, ExpressionAstNode([Term(Token(TokenType.NUMBER, str(k)))]), resolver))\n"),
+         (CG, "    TableAstNode,\n    TextAstNode,\n", "    TableAstNode,\n    Term,\n    TextAstNode,\n"), (CG, "from a816.parse.tokens import Token\n", "from a816.parse.tokens import Token, TokenType\n")])
+M("C10", "for-binds-after-expansion", CG, "        resolver.current_scope.add_symbol(node.symbol, k)\n        code.append(ScopeNode(resolver))\n        code += _code_gen(node.body.body, resolver, macro_definitions)\n", "        code.append(ScopeNode(resolver))\n        code += _code_gen(node.body.body, resolver, macro_definitions)\n        resolver.current_scope.add_symbol(node.symbol, k)\n", "C10.R2")
 M("C10", "else-expands-then", CG, "        code += _code_gen(if_branch_false.body, resolver, macro_definitions)", "        code += _code_gen(if_branch_true.body, resolver, macro_definitions)", "C10.R1")
 M("C10", "if-catches-everything", CG, "    except (KeyError, SymbolNotDefined):\n        condition = False", "    except Exception:\n        condition = False", "C10.R1")
 M("C10", "if-negated", CG, "    if condition:\n        code += _code_gen(if_branch_true.body", "    if not condition:\n        code += _code_gen(if_branch_true.body", "C10.R1")
